@@ -31,6 +31,9 @@ type target struct {
 var plan = []target{
 	{"storage/pebble/storage.go", []string{"c.size", "c.radius", "c.db", "batch.Commit", "cs.db", "cs.size", "cs.radius"}},
 	{"state/storage.go", []string{"s.store"}},
+	// "*": a yield before every statement (the validator has no fields to name: what concurrent
+	// validations may share is package-level or inside the accumulators)
+	{"validation/header_validator.go", []string{"*"}},
 	{"portalwire/portal_protocol.go", []string{"p.transferringKeyCache", "p.Utp", "p.contentQueue", "p.offerQueue", "p.cacheTransferringKeys", "p.deleteTransferringContentKeys", "p.storage", "permit.Release", "p.filterContentKeys", "p.handleOfferedContents"}},
 	{"portalwire/portal_protocol_v1.go", []string{"p.transferringKeyCache", "p.contentQueue", "p.storage"}},
 	// lock hooks only (no yield targets): the table's mutexes are modelled by the scheduler
@@ -123,6 +126,9 @@ func isTarget(r string) bool {
 func touches(n ast.Node) bool {
 	if n == nil {
 		return false
+	}
+	if len(targets) == 1 && targets[0] == "*" {
+		return true
 	}
 	found := false
 	ast.Inspect(n, func(x ast.Node) bool {
